@@ -202,30 +202,34 @@ RtpUnitIs(u, p) == IF IsPsU(p) THEN u.k = "ps" /\ u.t = p.t /\ u.v = p.v /\ u.ok
                    ELSE u.k = "nal" /\ UnitIs(u, p)
 
 RtpFrameIs(g, p) == Len(g.units) = Len(p.units) /\ \A i \in 1..Len(p.units) : RtpUnitIs(g.units[i], p.units[i])
+\* the first frame of a consumer may lack leading units (key-frame gating admits it at the first boundary packet)
+RtpFrameTail(g, p) == /\ Len(g.units) <= Len(p.units)
+                      /\ \A i \in 1..Len(g.units) : RtpUnitIs(g.units[i], p.units[Len(p.units) - Len(g.units) + i])
 \* where a consumer starts: the first published frame the packets of its first frame reassemble to
-FindVR(h, g) == IF \E j \in 1..Len(h.pubVR) : RtpFrameIs(g, h.pubVR[j])
-                THEN CHOOSE j \in 1..Len(h.pubVR) : RtpFrameIs(g, h.pubVR[j]) /\ \A i \in 1..(j-1) : ~RtpFrameIs(g, h.pubVR[i])
+FindVR(h, g) == IF \E j \in 1..Len(h.pubVR) : RtpFrameTail(g, h.pubVR[j])
+                THEN CHOOSE j \in 1..Len(h.pubVR) : RtpFrameTail(g, h.pubVR[j]) /\ \A i \in 1..(j-1) : ~RtpFrameTail(g, h.pubVR[i])
                 ELSE 0
 
-SdpOk(h, s) ==
+SdpOk(h, s, late) ==
   LET ms == s.media
       vm == SelectSeq(ms, LAMBDA x : x.kind = "video")
       am == SelectSeq(ms, LAMBDA x : x.kind = "audio")
-  IN /\ Len(vm) = (IF h.vshv > 0 THEN 1 ELSE 0)
+  IN /\ IF late THEN Len(vm) <= 1 ELSE Len(vm) = (IF h.vshv > 0 THEN 1 ELSE 0)
      /\ Len(vm) = 1 =>
           /\ vm[1].rate = 90000 /\ vm[1].enc = (IF vc = "hevc" THEN "H265" ELSE "H264") /\ vm[1].pt \in 96..127
-          /\ \A t \in PsTypes : vm[1][t] = h.vshv
+          /\ \A t \in PsTypes : IF late THEN vm[1][t] \in 1..h.vshv ELSE vm[1][t] = h.vshv
      /\ Len(am) <= 1
      /\ Len(am) = 1 =>
-          CASE ac = "aac" -> am[1].enc = "MPEG4-GENERIC" /\ am[1].asc = h.ascv /\ Len(h.asc) = 3 /\ am[1].rate = AscFreq(h.asc[2])
+          CASE ac = "aac" -> /\ am[1].enc = "MPEG4-GENERIC" /\ am[1].asc >= 1
+                             /\ (~late => am[1].asc = h.ascv /\ Len(h.asc) = 3 /\ am[1].rate = AscFreq(h.asc[2]))
             [] ac = "opus" -> am[1].enc = "OPUS" /\ am[1].rate = 48000
             [] ac = "g711a" -> am[1].enc = "PCMA" /\ am[1].rate = 8000 /\ am[1].pt = 8
             [] ac = "g711u" -> am[1].enc = "PCMU" /\ am[1].rate = 8000 /\ am[1].pt = 0
             [] OTHER -> FALSE
      /\ Len(vm) + Len(am) >= 1
 
-RtpSdp(h, r, s) ==
-  IF ~r.sdp /\ SdpOk(h, s)
+RtpSdp(h, r, s, late) ==
+  IF ~r.sdp /\ SdpOk(h, s, late)
   THEN LET vm == SelectSeq(s.media, LAMBDA x : x.kind = "video")
            am == SelectSeq(s.media, LAMBDA x : x.kind = "audio")
        IN [r EXCEPT !.sdp = TRUE, !.vrate = IF vm = <<>> THEN 0 ELSE vm[1].rate, !.arate = IF am = <<>> THEN 0 ELSE am[1].rate]
@@ -237,7 +241,7 @@ AcceptRtpFrame(h, r, g) ==
     LET j == IF r.vcur = 0 THEN FindVR(h, g) ELSE r.vcur + 1 IN
     IF j = 0 \/ j > Len(h.pubVR) THEN [r EXCEPT !.ok = FALSE]
     ELSE LET p == h.pubVR[j] IN
-         IF /\ RtpFrameIs(g, p)
+         IF /\ (IF r.vcur = 0 THEN RtpFrameTail(g, p) ELSE RtpFrameIs(g, p))
             /\ (r.vseq < 0 \/ g.seq = r.vseq)
             /\ r.vrate > 0 /\ RtpTimeOk(g.ts, p.ts, r.vrate)
          THEN [r EXCEPT !.vcur = j, !.vseq = (g.seq + g.np) % 65536, !.start = StartOf(r, p.step)]
@@ -254,8 +258,9 @@ AcceptRtpFrame(h, r, g) ==
 
 RECURSIVE AcceptRtp(_, _, _, _)
 AcceptRtp(h, r, gs, i) == IF i > Len(gs) \/ ~r.ok THEN r ELSE AcceptRtp(h, AcceptRtpFrame(h, r, gs[i]), gs, i + 1)
-RECURSIVE AcceptSdps(_, _, _, _)
-AcceptSdps(h, r, ss, i) == IF i > Len(ss) \/ ~r.ok THEN r ELSE AcceptSdps(h, RtpSdp(h, r, ss[i]), ss, i + 1)
+RECURSIVE AcceptSdps(_, _, _, _, _)
+AcceptSdps(h, r, ss, i, late) == IF i > Len(ss) \/ ~r.ok THEN r ELSE AcceptSdps(h, RtpSdp(h, r, ss[i], late), ss, i + 1, late)
+RtpCons == {"ra", "rg"}     \* ra: remux.Rtmp2RtspRemuxer alone; rg: RTSP subscriber (interleaved) of the Group
 
 RtpEndOk(h, r) ==
   r.start > 0 =>
